@@ -76,7 +76,91 @@ theorem queues_partition {α : Type u} (P : Nat) (hP : 0 < P) (xs : List α) :
   rw [hfst] at h2
   exact h2
 
+/-! ### The code shape (`skip(p).step_by(P)`) is the index-mod-P specification -/
+
+theorem queueFrom_skip (P r : Nat) (m a : Nat) (l : List α) (h : ∀ j, j < m → (a + j) % P ≠ r) :
+    queueFrom a P r l = queueFrom (a + m) P r (l.drop m) := by
+  induction m generalizing a l with
+  | zero => simp
+  | succ m ih =>
+    cases l with
+    | nil => simp [queueFrom]
+    | cons x xs =>
+      have h0 : a % P ≠ r := by simpa using h 0 (by omega)
+      have hrest : queueFrom a P r (x :: xs) = queueFrom (a + 1) P r xs := by
+        simp [queueFrom, List.zipIdx_cons, List.filter_cons, h0]
+      rw [hrest, ih (a + 1) xs (fun j hj => by have := h (j + 1) (by omega); rwa [Nat.add_assoc, Nat.add_comm 1 j])]
+      simp [Nat.add_assoc, Nat.add_comm 1 m]
+
+theorem stepBy_eq_queueFrom (P : Nat) (hP : 0 < P) (k : Nat) (xs : List α) :
+    stepBy P xs = queueFrom k P (k % P) xs := by
+  suffices h : ∀ n (xs : List α) (k : Nat), xs.length ≤ n → stepBy P xs = queueFrom k P (k % P) xs from
+    h xs.length xs k (Nat.le_refl _)
+  intro n
+  induction n with
+  | zero =>
+    intro xs k hl
+    have : xs = [] := List.eq_nil_of_length_eq_zero (by omega)
+    subst this; simp [stepBy, queueFrom]
+  | succ n ih =>
+    intro xs k hl
+    cases xs with
+    | nil => simp [stepBy, queueFrom]
+    | cons x rest =>
+      rw [stepBy]
+      have hhead : queueFrom k P (k % P) (x :: rest) = x :: queueFrom (k + 1) P (k % P) rest := by
+        simp [queueFrom, List.zipIdx_cons, List.filter_cons]
+      rw [hhead]
+      congr 1
+      have hskip := queueFrom_skip P (k % P) (P - 1) (k + 1) rest (by
+        intro j hj
+        have : (k + 1 + j) = k + (j + 1) := by omega
+        rw [this]
+        intro hc
+        have h1 : (k + (j + 1)) % P = (k % P + (j + 1) % P) % P := Nat.add_mod _ _ _
+        have h2 : (j + 1) % P = j + 1 := Nat.mod_eq_of_lt (by omega)
+        have hk := Nat.mod_lt k hP
+        rw [h1, h2] at hc
+        by_cases hlt : k % P + (j + 1) < P
+        · rw [Nat.mod_eq_of_lt hlt] at hc; omega
+        · have : (k % P + (j + 1)) % P = k % P + (j + 1) - P := by
+            rw [Nat.mod_eq_sub_mod (by omega), Nat.mod_eq_of_lt (by omega)]
+          omega)
+      rw [hskip]
+      have hidx : k + 1 + (P - 1) = k + P := by omega
+      rw [hidx]
+      have hmod : (k + P) % P = k % P := by simp
+      have := ih (rest.drop (P - 1)) (k + P) (by simp only [List.length_drop, List.length_cons] at hl ⊢; omega)
+      rw [this, hmod]
+
+/-- **The code shape is the specification**: `skip(p).step_by(P)` selects exactly the elements whose
+index is congruent to `p` modulo `P`. -/
+theorem skipStep_eq_queue (P p : Nat) (hp : p < P) (xs : List α) : skipStep P p xs = queue P p xs := by
+  have hP : 0 < P := by omega
+  unfold skipStep
+  rw [stepBy_eq_queueFrom P hP p (xs.drop p), Nat.mod_eq_of_lt hp]
+  have := queueFrom_skip P p p 0 xs (by
+    intro j hj
+    simp only [Nat.zero_add]
+    rw [Nat.mod_eq_of_lt (by omega)]
+    omega)
+  simp only [Nat.zero_add] at this
+  rw [← this]
+  simp [queueFrom, queue]
+
+/-- Corollary: the queues the code builds with `skip(p).step_by(P)` are a partition of the file list. -/
+theorem skipStep_queues_partition {α : Type u} (P : Nat) (hP : 0 < P) (xs : List α) :
+    ((List.range P).flatMap fun p => skipStep P p xs).Perm xs := by
+  have h : ((List.range P).flatMap fun p => skipStep P p xs) = (List.range P).flatMap fun p => queue P p xs := by
+    apply flatMap_congr_mem
+    intro p hp
+    exact skipStep_eq_queue P p (List.mem_range.mp hp) xs
+  rw [h]
+  exact queues_partition P hP xs
+
 example : queue 3 1 ["a", "b", "c", "d", "e"] = ["b", "e"] := by decide
+example : skipStep 3 1 ["a", "b", "c", "d", "e"] = ["b", "e"] := by
+  rw [skipStep_eq_queue 3 1 (by omega)]; decide
 
 /-! ## Row-group pruning is conservative -/
 
